@@ -1377,7 +1377,11 @@ func (e *Exec) convert(ins ssa.Instruction, v Value, from, to types.Type) Value 
 		return FloatV{f}
 	case isInteger(to) && isFloat(from):
 		if _, ok := v.(OpaqueF); ok {
-			e.unsupported("conversion of an opaque symbolic float to integer (bit-vector mode) at %s", e.posOf(ins))
+			// over-approximation: the integer result of a float computation the bit-vector mode does not track
+			// is an unconstrained fresh value (sound for "holds"; counterexamples are replayed natively)
+			e.realN++
+			e.w.stats.OpaqueInts++
+			return c.Var(fmt.Sprintf("opaque!%d", e.realN), BV(e.width(to)))
 		}
 		if rv, ok := v.(RealV); ok {
 			return e.realToInt(ins, rv, to)
